@@ -207,7 +207,7 @@ fn run(dir: &std::path::Path, scn: &Scenario, counter: &mut u64) -> Option<(usiz
         let v = check(&scn.cfg, scn.library, spec, &text, &diagnose(&analysis, id));
         if let Some(first) = v.into_iter().next() { return Some((i, first)); }
         let v = check(&scn.cfg, false, &by_spec, &by_spec.text(), &diagnose(&analysis, by_id));
-        if let Some(first) = v.into_iter().next() { return Some((i, format!("(bystander.lua) {first}"))); }
+        if let Some(first) = v.into_iter().next() { return Some((i, format!("{first} -- in main/bystander.lua, submitted once before version 1 and never again, text={:?}", by_spec.text()))); }
     }
     None
 }
